@@ -74,6 +74,8 @@ logger.warning logger.info logger.debug logger.error logger.exception warnings.w
 re.findall struct.pack struct.unpack sys.byteorder
 int.from_bytes np.take_along_axis np.trapezoid np.trapz np.logical_or.reduce np.logical_and.reduce np.argpartition
 np.nanargmax np.nanargmin np.uint16 np.int8 np.int16
+np.result_type np.promote_types np.can_cast np.issubdtype np.iinfo np.finfo np.frexp np.ldexp np.spacing np.nextafter
+np.min_scalar_type np.isclose np.rint np.trunc np.fix np.copysign np.signbit np.expm1 np.cbrt np.reciprocal np.float16
 """.split())
 # np.diff(x, n=0) returns x itself, np.meshgrid(copy=False) views, np.array(copy=False|None) / np.nan_to_num(copy=False)
 # the argument, np.median/percentile/quantile(overwrite_input=True) sort the argument in place: keyword rules below.
